@@ -178,13 +178,15 @@ type c17Job struct {
 	resvChangedSince       bool
 
 	// every status write of the job that reached the API, in order (what a watcher of the API sees)
-	phasesWritten         []sev1alpha1.PodMigrationJobPhase
-	writtenTerminal       sev1alpha1.PodMigrationJobPhase // first Succeeded/Failed that was written
-	nameOnlyRef           bool                            // user-supplied reservationRef without UID
-	userTemplate          string                          // "", or the allocateOnce value of a user-written reservation template: nil / true / false
-	falseTemplateConsumed bool                            // template said allocateOnce=false and another pod consumed the reservation before the job evicted
-	nonOnceConsumed       bool                            // a non-allocate-once reservation of this job was consumed by another pod before the job evicted
-	targetBoundOwn        bool                            // the target pod itself consumed the job's reservation
+	phasesWritten           []sev1alpha1.PodMigrationJobPhase
+	writtenTerminal         sev1alpha1.PodMigrationJobPhase // first Succeeded/Failed that was written
+	nameOnlyRef             bool                            // user-supplied reservationRef without UID
+	deleted                 bool                            // removed by the scavenger
+	msgChangedWhileEvicting bool
+	userTemplate            string // "", or the allocateOnce value of a user-written reservation template: nil / true / false
+	falseTemplateConsumed   bool   // template said allocateOnce=false and another pod consumed the reservation before the job evicted
+	nonOnceConsumed         bool   // a non-allocate-once reservation of this job was consumed by another pod before the job evicted
+	targetBoundOwn          bool   // the target pod itself consumed the job's reservation
 
 	// the pattern "unschedulable report -> reconcile records ReservationScheduled=False -> reservation scheduled on the
 	// target pod's own node -> reconcile": 1 = False condition persisted, 2 = then scheduled on the pod's node, 3 = then reconciled
@@ -214,22 +216,25 @@ type c17Env struct {
 	faultsDelivered   int
 	justEvicted       bool
 
-	evictImmediate                                                                                                   bool
-	nextPodUnscheduled                                                                                               bool
-	extended                                                                                                         bool            // third test: unscheduled target pods that may get bound through a reservation; optional preemption
-	preempt                                                                                                          bool            // the interpreter offers Preemption()
-	preemptState                                                                                                     map[string]int  // per reservation: 0 not started, 1 in progress, 2 complete
-	noPreemptNeeded                                                                                                  map[string]bool // reservations whose NeedPreemption() is false
-	sawFalseTemplateConsumedThenReconciled                                                                           bool
-	sawPreemptForNoNeed, sawGivenUpNoNeedReconciled, sawNonOnceConsumedBeforeEvict, sawNonOnceConsumedThenReconciled bool
-	preemptShape                                                                                                     int  // how an incomplete Preempt answers during the next reconcile
-	userInput                                                                                                        bool // second test: jobs as users write them (name-only reservationRef, unresolvable podRef), TTL expiry favoured
-	colocated                                                                                                        bool // generator profile: several reservation-first jobs of one workload whose reservations tend to share a node
-	jobs                                                                                                             []*c17Job
-	pods                                                                                                             []string
-	hist                                                                                                             []string
-	stamps                                                                                                           []c17Stamp
-	dead                                                                                                             bool
+	evictImmediate                                                                                                                    bool
+	nextPodUnscheduled                                                                                                                bool
+	extended                                                                                                                          bool            // third test: unscheduled target pods that may get bound through a reservation; optional preemption
+	preempt                                                                                                                           bool            // the interpreter offers Preemption()
+	preemptState                                                                                                                      map[string]int  // per reservation: 0 not started, 1 in progress, 2 complete
+	noPreemptNeeded                                                                                                                   map[string]bool // reservations whose NeedPreemption() is false
+	sawFalseTemplateConsumedThenReconciled                                                                                            bool
+	sawScavenge, sawScavengeExpiredWithResv, sawScavengeForeignExpiredWithResv, sawMsgChangeWhileEvicting, sawReconcileAfterMsgChange bool
+	scavengeProfile                                                                                                                   bool
+	fitsNowhere                                                                                                                       bool
+	sawPreemptForNoNeed, sawGivenUpNoNeedReconciled, sawNonOnceConsumedBeforeEvict, sawNonOnceConsumedThenReconciled                  bool
+	preemptShape                                                                                                                      int  // how an incomplete Preempt answers during the next reconcile
+	userInput                                                                                                                         bool // second test: jobs as users write them (name-only reservationRef, unresolvable podRef), TTL expiry favoured
+	colocated                                                                                                                         bool // generator profile: several reservation-first jobs of one workload whose reservations tend to share a node
+	jobs                                                                                                                              []*c17Job
+	pods                                                                                                                              []string
+	hist                                                                                                                              []string
+	stamps                                                                                                                            []c17Stamp
+	dead                                                                                                                              bool
 
 	// distribution
 	sawRestart, sawFaultAfterEvict, sawResvChangeWhileRunning, sawSameNode, sawEvictReplacement bool
@@ -826,6 +831,9 @@ func (e *c17Env) createJob(t *rapid.T) {
 	if e.colocated && origin == "descheduler" {
 		origin = "user"
 	}
+	if e.scavengeProfile && !e.colocated && pod != nil && rapid.IntRange(0, 3).Draw(t, "madeByDescheduler") > 0 {
+		origin = "descheduler"
+	}
 	if pod == nil && origin != "user" {
 		origin = "user"
 	}
@@ -978,6 +986,9 @@ func (e *c17Env) reconcile(t *rapid.T, j *c17Job) {
 	}
 	if j.targetBoundOwn && !preTerminal {
 		e.sawReconcileAfterTargetBound = true
+	}
+	if j.msgChangedWhileEvicting && !preTerminal {
+		e.sawReconcileAfterMsgChange = true
 	}
 	if j.falseTemplateConsumed && !preTerminal {
 		e.sawFalseTemplateConsumedThenReconciled = true
@@ -1140,6 +1151,9 @@ func c17RunTest(t *testing.T, unit string, userInput bool) {
 		e.extended = unit == "extended"
 		if e.extended {
 			e.preempt = rapid.Bool().Draw(t, "interpreterOffersPreemption")
+			e.scavengeProfile = rapid.IntRange(0, 2).Draw(t, "scavengeProfile") == 2
+			// a full cluster: reservations fit nowhere unless victims are preempted; evicted pods terminate gracefully
+			e.fitsNowhere = e.preempt && rapid.Bool().Draw(t, "clusterFull")
 		}
 
 		var v1a2 v1alpha2.MigrationControllerArgs
@@ -1153,7 +1167,7 @@ func c17RunTest(t *testing.T, unit string, userInput bool) {
 			sev1alpha1.PodMigrationJobModeReservationFirst, sev1alpha1.PodMigrationJobModeReservationFirst, sev1alpha1.PodMigrationJobModeEvictionDirectly}).Draw(t, "defaultMode"))
 		args.DefaultJobTTL = metav1.Duration{Duration: rapid.SampledFrom([]time.Duration{30 * time.Second, 5 * time.Minute}).Draw(t, "defaultTTL")}
 		e.args = args
-		e.evictImmediate = rapid.Bool().Draw(t, "evictDeletesPodAtOnce")
+		e.evictImmediate = rapid.Bool().Draw(t, "evictDeletesPodAtOnce") && !e.fitsNowhere
 		maxJobs := rapid.IntRange(1, 2).Draw(t, "maxJobs")
 		nPods := rapid.IntRange(1, 2).Draw(t, "pods")
 		e.colocated = rapid.SampledFrom([]bool{false, true}).Draw(t, "colocatedProfile")
@@ -1184,14 +1198,14 @@ func c17RunTest(t *testing.T, unit string, userInput bool) {
 		if maxJobs > 1 && (e.colocated || rapid.Bool().Draw(t, "secondJobAtStart")) {
 			e.createJob(t)
 		}
-		if e.extended && rapid.Bool().Draw(t, "firstEvictRejected") {
+		if e.extended && !e.preempt && rapid.Bool().Draw(t, "firstEvictRejected") {
 			e.evictFailArmed = rapid.IntRange(1, 3).Draw(t, "rejections")
 			e.hist = append(e.hist, fmt.Sprintf("fault plan: the next %d Evict call(s) are rejected", e.evictFailArmed))
 		}
 		if e.preempt {
 			e.hist = append(e.hist, "reservation interpreter offers Preemption(); reservations report NeedPreemption()")
 		}
-		if e.colocated {
+		if e.colocated && !e.fitsNowhere {
 			// this profile aims at "the eviction went through but could not be recorded" / "the eviction was rejected"
 			switch rapid.IntRange(0, 3).Draw(t, "initialFault") {
 			case 2:
@@ -1203,7 +1217,13 @@ func c17RunTest(t *testing.T, unit string, userInput bool) {
 			}
 		}
 
-		pickJob := func(t *rapid.T) *c17Job { return e.jobs[rapid.IntRange(0, len(e.jobs)-1).Draw(t, "job")] }
+		pickJob := func(t *rapid.T) *c17Job {
+			j := e.jobs[rapid.IntRange(0, len(e.jobs)-1).Draw(t, "job")]
+			if j.deleted {
+				t.Skip("job object removed by the scavenger")
+			}
+			return j
+		}
 		// a reservation that belongs to a drawn job and satisfies want
 		pickResv := func(t *rapid.T, want func(*sev1alpha1.Reservation) bool) (*c17Job, *sev1alpha1.Reservation) {
 			j := pickJob(t)
@@ -1218,7 +1238,10 @@ func c17RunTest(t *testing.T, unit string, userInput bool) {
 				return
 			}
 			if e.preempt {
-				e.preemptShape = rapid.IntRange(0, 2).Draw(t, "incompletePreemptAnswers")
+				e.preemptShape = rapid.SampledFrom([]int{0, 0, 0, 1, 1, 2}).Draw(t, "incompletePreemptAnswers")
+				if e.fitsNowhere && e.preemptShape == 2 {
+					e.preemptShape = 1
+				}
 			}
 			e.reconcile(t, pickJob(t))
 		}
@@ -1254,6 +1277,26 @@ func c17RunTest(t *testing.T, unit string, userInput bool) {
 			return true
 		}
 		var schedViaResv func(t *rapid.T, j *c17Job) // extended test only
+		// the scheduler retries a reservation that does not fit and reports it with another message (same state otherwise)
+		msgChange := func(r *sev1alpha1.Reservation) {
+			c := c17ResvCond(r, sev1alpha1.ReservationConditionScheduled)
+			if c.Message == "0/3 nodes are available" {
+				c.Message = "0/3 nodes are available: 3 Insufficient cpu"
+			} else {
+				c.Message = "0/3 nodes are available"
+			}
+			c.LastProbeTime = metav1.NewTime(e.clk.Now())
+			e.updateResvStatus(r)
+			e.hist = append(e.hist, fmt.Sprintf("env: scheduler retries reservation %s, still unschedulable, new message %q", r.Name, c.Message))
+			for _, j := range e.jobs {
+				if api := e.getJob(j.name); j.resvName == r.Name && api != nil && !c17Terminal(api.Status.Phase) {
+					if ev := c17JobCond(api, sev1alpha1.PodMigrationJobConditionEviction); ev != nil && ev.Status == sev1alpha1.PodMigrationJobConditionStatusFalse && e.getPod(j.podName) != nil {
+						j.msgChangedWhileEvicting = true
+						e.sawMsgChangeWhileEvicting = true
+					}
+				}
+			}
+		}
 		scheduleOn := func(j *c17Job, r *sev1alpha1.Reservation, node string) {
 			if p := e.getPod(j.podName); p != nil && p.Spec.NodeName == node {
 				e.sawSameNode = true
@@ -1288,16 +1331,20 @@ func c17RunTest(t *testing.T, unit string, userInput bool) {
 				}
 				switch {
 				// (extended test, preemption-capable scheduler) no node fits: report unschedulable, then give up; victims leave later
-				case e.preempt && r != nil && !j.direct && c17ResvIsPending(r) && rapid.Bool().Draw(t, "noNodeFits"):
+				case e.preempt && r != nil && !j.direct && c17ResvIsPending(r) && (e.fitsNowhere || rapid.Bool().Draw(t, "noNodeFits")):
 					if c17ResvCond(r, sev1alpha1.ReservationConditionScheduled) == nil {
 						e.resvUnschedulable(r, rapid.Bool().Draw(t, "setPhase"), "0/3 nodes are available")
 					} else {
 						e.resvGiveUp(r)
 					}
+				case e.fitsNowhere && r != nil && c17ResvIsPending(r):
+					t.Skip("the cluster is full: nothing is placed without preemption")
 				case e.preempt && r != nil && e.preemptState[r.Name] == 1 && rapid.Bool().Draw(t, "victimsLeave"):
 					e.preemptState[r.Name] = 2
 					e.markResvChanged(r.Name)
 					e.hist = append(e.hist, fmt.Sprintf("env: preemption for reservation %s completes (victims gone)", r.Name))
+				case e.preempt && r != nil && pod != nil && ev != nil && ev.Status == sev1alpha1.PodMigrationJobConditionStatusFalse && r.Status.NodeName == "" && c17ResvCond(r, sev1alpha1.ReservationConditionScheduled) != nil && rapid.Bool().Draw(t, "reportRewordedWhileEvicting"):
+					msgChange(r)
 				// (extended test) a target pod still waiting for the scheduler, whose eviction was attempted but is not on record, gets placed
 				case e.extended && schedViaResv != nil && pod != nil && pod.Spec.NodeName == "" && !c17PodUnschedulable(pod) && j.evicts > 0 && ev == nil && r != nil && bindable(r) && !ownedByOnePod(r) && rapid.Bool().Draw(t, "placeTarget"):
 					schedViaResv(t, j)
@@ -1337,6 +1384,9 @@ func c17RunTest(t *testing.T, unit string, userInput bool) {
 				if e.dead {
 					return
 				}
+				if e.fitsNowhere {
+					t.Skip("the cluster is full: nothing is placed without preemption")
+				}
 				j, r := pickResv(t, c17ResvIsPending)
 				node := e.pickNode(t, j)
 				scheduleOn(j, r, node)
@@ -1346,6 +1396,9 @@ func c17RunTest(t *testing.T, unit string, userInput bool) {
 			"unschedulableThenPodNode": func(t *rapid.T) {
 				if e.dead {
 					return
+				}
+				if e.fitsNowhere {
+					t.Skip("the cluster is full: nothing is placed without preemption")
 				}
 				j, r := pickResv(t, c17ResvIsPending)
 				if j.direct {
@@ -1504,6 +1557,9 @@ func c17RunTest(t *testing.T, unit string, userInput bool) {
 				if e.dead {
 					return
 				}
+				if e.fitsNowhere {
+					t.Skip("the full-cluster profile looks at runs without API errors")
+				}
 				e.faultAfterApply = rapid.IntRange(0, 3).Draw(t, "lostResponse") == 0
 				kind := rapid.IntRange(0, 3).Draw(t, "faultKind")
 				if e.colocated && kind < 2 && rapid.Bool().Draw(t, "aimAtEvict") {
@@ -1539,7 +1595,7 @@ func c17RunTest(t *testing.T, unit string, userInput bool) {
 				}
 				// clause 2, continuously: a finished job's persisted phase never moves, whoever reconciles whatever
 				for _, j := range e.jobs {
-					if j.terminal == "" {
+					if j.terminal == "" || j.deleted {
 						continue
 					}
 					if api := e.getJob(j.name); api == nil || api.Status.Phase != j.terminal {
@@ -1637,6 +1693,155 @@ func c17RunTest(t *testing.T, unit string, userInput bool) {
 			actions["target-scheduled-via-reservation-c"] = act
 		}
 		if e.preempt {
+			actions["unschedulable-report-reworded"] = func(t *rapid.T) {
+				if e.dead {
+					return
+				}
+				_, r := pickResv(t, func(r *sev1alpha1.Reservation) bool {
+					c := c17ResvCond(r, sev1alpha1.ReservationConditionScheduled)
+					return r.Status.NodeName == "" && c != nil && c.Status == sev1alpha1.ConditionStatusFalse
+				})
+				msgChange(r)
+			}
+		}
+		if e.extended {
+			// one round of the controller's scavenger (Reconciler.doScavenge, started by Start() once a minute)
+			scavenge := func(t *rapid.T) {
+				if e.dead {
+					return
+				}
+				type due struct {
+					j    *c17Job
+					resv string
+				}
+				var dues []due
+				now := e.clk.Now()
+				for _, j := range e.jobs {
+					api := e.getJob(j.name)
+					if j.deleted || api == nil || j.ttl <= 0 {
+						continue
+					}
+					// "expired" with the scavenger's own grace of 5 minutes on top of the TTL as tolerance
+					if now.Sub(j.created) >= j.ttl+5*time.Minute && api.Spec.ReservationOptions != nil && api.Spec.ReservationOptions.ReservationRef != nil {
+						name := api.Spec.ReservationOptions.ReservationRef.Name
+						if e.getResv(name) != nil {
+							dues = append(dues, due{j, name})
+							e.sawScavengeExpiredWithResv = true
+							if by, ok := api.Annotations[AnnotationJobCreatedBy]; ok && by != string(e.r.reconcilerUID) {
+								e.sawScavengeForeignExpiredWithResv = true
+							}
+						}
+					}
+				}
+				f0 := e.faultsDelivered
+				e.hist = append(e.hist, fmt.Sprintf("scavenger round (t=+%v, reconciler #%d)", now.Sub(c17Epoch), e.gen))
+				e.r.doScavenge()
+				e.sawScavenge = true
+				for _, j := range e.jobs {
+					if !j.deleted && e.getJob(j.name) == nil {
+						j.deleted = true
+						e.hist = append(e.hist, "    job "+j.name+" removed")
+					}
+				}
+				if e.faultsDelivered != f0 {
+					return // a failed delete stops the round; it is retried a minute later
+				}
+				for _, d := range dues {
+					if left := e.getResv(d.resv); left != nil {
+						if e.c.Violation(t, "scavenge:expired-job-keeps-reservation", "job %s (ttl %v, created t=+%v) is expired for more than 5 minutes, a scavenger round ran without API errors, its reservation %s still exists; history:%s", d.j.name, d.j.ttl, d.j.created.Sub(c17Epoch), c17ResvString(left), e.history()) {
+							e.dead = true
+							return
+						}
+					}
+				}
+			}
+			actions["scavenger-round"] = scavenge
+			if e.scavengeProfile {
+				// a job of the descheduler outlives its controller instance: restart, then time passes, then the scavenger runs
+				outlive := func(t *rapid.T) {
+					if e.dead {
+						return
+					}
+					j := pickJob(t)
+					api := e.getJob(j.name)
+					by, ok := api.Annotations[AnnotationJobCreatedBy]
+					if !ok || j.ttl <= 0 || api.Spec.ReservationOptions == nil || api.Spec.ReservationOptions.ReservationRef == nil || c17Terminal(api.Status.Phase) {
+						t.Skip("not a running descheduler-made job with a reservation")
+					}
+					deadline := j.created.Add(j.ttl + 5*time.Minute)
+					switch {
+					case by == string(e.r.reconcilerUID):
+						all["restart"](t)
+					case e.clk.Now().Before(deadline):
+						d := deadline.Sub(e.clk.Now()) + time.Duration(rapid.IntRange(0, 1).Draw(t, "late"))*time.Second
+						e.clk.Step(d)
+						e.hist = append(e.hist, fmt.Sprintf("clock +%v (t=+%v)", d, e.clk.Now().Sub(c17Epoch)))
+					default:
+						scavenge(t)
+					}
+				}
+				actions["job-outlives-its-controller-a"] = outlive
+				actions["job-outlives-its-controller-b"] = outlive
+				actions["job-outlives-its-controller-c"] = outlive
+				actions["scavenger-round-b"] = scavenge
+				actions["restart-b"] = all["restart"]
+				actions["clock-to-scavenger-deadline"] = func(t *rapid.T) {
+					if e.dead {
+						return
+					}
+					j := pickJob(t)
+					if j.ttl <= 0 {
+						t.Skip("no ttl")
+					}
+					target := j.created.Add(j.ttl + 5*time.Minute).Add(time.Duration(rapid.IntRange(-1, 1).Draw(t, "delta")) * time.Second)
+					if !target.After(e.clk.Now()) {
+						t.Skip("already past")
+					}
+					d := target.Sub(e.clk.Now())
+					e.clk.Step(d)
+					e.hist = append(e.hist, fmt.Sprintf("clock +%v (t=+%v)", d, e.clk.Now().Sub(c17Epoch)))
+				}
+			}
+		}
+		if e.preempt {
+			// the next step of "fits nowhere -> given up -> victims preempted -> (evicted) -> retried with another wording"
+			chain := func(t *rapid.T) {
+				if e.dead {
+					return
+				}
+				j := pickJob(t)
+				api := e.getJob(j.name)
+				r := e.getResv(j.resvName)
+				if r == nil || j.direct || r.Status.NodeName != "" || c17Terminal(api.Status.Phase) {
+					t.Skip("no unplaced reservation of a live reservation-first job")
+				}
+				ev := c17JobCond(api, sev1alpha1.PodMigrationJobConditionEviction)
+				sc := c17ResvCond(r, sev1alpha1.ReservationConditionScheduled)
+				switch {
+				case c17ResvIsPending(r) && sc == nil:
+					e.resvUnschedulable(r, rapid.Bool().Draw(t, "setPhase"), "0/3 nodes are available")
+				case c17ResvIsPending(r):
+					e.resvGiveUp(r)
+				case e.preemptState[r.Name] == 1:
+					e.preemptState[r.Name] = 2
+					e.markResvChanged(r.Name)
+					e.hist = append(e.hist, fmt.Sprintf("env: preemption for reservation %s completes (victims gone)", r.Name))
+				case sc != nil && ev != nil && ev.Status == sev1alpha1.PodMigrationJobConditionStatusFalse && e.getPod(j.podName) != nil:
+					msgChange(r)
+				default:
+					t.Skip("waiting for the controller")
+				}
+			}
+			actions["preemption-chain-a"] = chain
+			actions["preemption-chain-b"] = chain
+			actions["preemption-chain-c"] = chain
+			if e.fitsNowhere {
+				actions["preemption-chain-d"] = chain
+				// actions that can only be skipped in this profile would eat rapid's budget of invalid actions
+				delete(actions, "fault")
+				delete(actions, "unsched-then-pod-node-a")
+				delete(actions, "unsched-then-pod-node-b")
+			}
 			giveUp := func(t *rapid.T) {
 				if e.dead {
 					return
@@ -1708,6 +1913,12 @@ func c17RunTest(t *testing.T, unit string, userInput bool) {
 		c.ClassIf(e.sawOrphanAtTTL, "ttl-abort-leaves-unreferenced-reservation(not asserted)")
 		c.ClassIf(e.sawTTLAbortNameOnlyRef, "ttl-abort-of-job-with-name-only-reservation-ref")
 		c.ClassIf(e.preempt, "interpreter-offers-preemption")
+		c.ClassIf(e.fitsNowhere, "profile:full-cluster-nothing-fits-without-preemption")
+		c.ClassIf(e.sawScavenge, "scavenger-round")
+		c.ClassIf(e.sawScavengeExpiredWithResv, "scavenger-round-finds-expired-job-that-still-holds-a-reservation")
+		c.ClassIf(e.sawScavengeForeignExpiredWithResv, "...a-job-created-by-a-previous-controller-instance")
+		c.ClassIf(e.sawMsgChangeWhileEvicting, "unschedulable-report-reworded-while-evicted-pod-still-exists")
+		c.ClassIf(e.sawMsgChangeWhileEvicting && e.sawReconcileAfterMsgChange && e.faultsDelivered == 0, "...then-reconciled-again-in-a-run-without-api-errors")
 		c.ClassIf(len(e.noPreemptNeeded) > 0, "reservation-reports-NeedPreemption-false")
 		c.ClassIf(e.sawGivenUpNoNeedReconciled, "job-reconciled-while-its-reservation-is-given-up-and-needs-no-preemption")
 		c.ClassIf(e.sawPreemptForNoNeed, "preempt-called-for-reservation-needing-none(never on correct code)")
